@@ -11,9 +11,9 @@ CLAIMS = {
  "C17": ("Lean 4 theorems: the SetOSType decision table stated outright (tag on: every requested type honoured whatever the host; tag off: only the host type), separator by type; tied to /repo by the construction matrix {MemFS, OrefaFS} × {Unknown, Linux, Windows} run from a tag-on and a tag-off harness binary. Agreement of the Windows-typed and Linux-typed emulations (success/failure call by call, isomorphic trees) is an oracle run in lockstep on portable histories, with recorded divergence classes.",
          "os_agreement is not a theorem (the Lean file-system models are Linux-only); volume management not exercised.",
          "Lean 4 proof (decision table) + lockstep differential of the two emulations", "§3 C17"),
- "C06": ("Generic Lean 4 theorem (any number of threads, any trace): if every access happens inside critical sections on one lock held exclusively, sections of different threads never interleave (serial execution in acquisition order, respecting real time). Instantiated by kernel-decided obligations on lock facts REGENERATED from the source on every run: OrefaFS Mkdir/MkdirAll/Remove/RemoveAll and all MemIdm operations except AddUser touch guarded state inside one section only; AddUser's two sections are a kernel-checked witness of a recorded finding.",
-         "Full linearizability of MemFS's lock-free walk is not claimed; the translator is trusted; non-linearizable pairs are recorded findings reproduced only by free-running stress (no deterministic scheduler).",
-         "Lean 4 proof (generic mutual-exclusion theorem + decide over regenerated lock facts) + race-detector stress as search", "§3 C06"),
+ "C06": ("Lean 4 theorems, any number of threads, calls and steps: (1) if every access happens inside critical sections on one lock held exclusively, sections of different threads never interleave (serial execution in acquisition order); (2) two-phase operations (unlocked walk, commit under the parent's lock) whose commit is the sequential specification on the state it finds are linearizable in the order of their decisive steps, program order and real time kept (C06_two_phase_linearizable), instantiated for MemFS Mkdir / exclusive create / Remove on leaf names of directories no concurrent call removes or renames. The tie to the source is REGENERATED on every run: lock facts and commit-shape facts (walk, commit lock, look-up under the lock before each mutation, no use of what the walk captured) are extracted by lockx and decided by the kernel; the stale-commit sites that remain are exactly the recorded findings; a kernel-checked counter-schedule documents the repaired Remove defect. A linearizability search engine (all sequential interleavings as reference, lock-hold amplifier) runs the proved classes as violations-with-input and the recorded classes as known findings.",
+         "Link / Symlink / Rename / RemoveAll / MkdirAll and calls below a concurrently removed directory are NOT linearizable in the current code (recorded findings, reproduced on every run); the translator and the atomicity of walk/commit steps are trusted; no deterministic scheduler (free-running search with a lock-hold amplifier).",
+         "Lean 4 proof (induction over schedules; decide over regenerated lock/commit-shape facts) + linearizability and race-detector search", "§3 C06"),
  "C08": ("Generic Lean 4 theorem: lock discipline ⇒ every two conflicting accesses are ordered by happens-before (no data race; visibility of completed calls), for any number of threads and any trace. Lock facts (locks certainly held at every access of every guarded field, with requirement propagation through calls) are REGENERATED from the source on every run and the kernel decides that the undisciplined sites are exactly the recorded ones.",
          "The bridge facts ⇒ Disciplined traces (lockset soundness) is the translator's meaning, not a theorem; recorded undisciplined sites are findings in the ledger; the race detector run covers the race-free call subsets only.",
          "Lean 4 proof (happens-before theorem + decide over regenerated lock facts) + Go race detector as search", "§3 C08"),
@@ -27,19 +27,19 @@ CLAIMS = {
          "Rename under the hypothesis RenameSafe (not yet discharged); detached views excluded (kernel-checked witness); OrefaFS not modelled; concurrent executions are C06.",
          "Lean 4 proof (invariant preservation by case analysis over the heap) + differential correspondence with graph dumps", "§3 C05"),
  "C07": ("Part (a): Lean 4 theorems that no MemFS path-level call and no handle operation of the model returns the `panic` / `hang` outcome in any well-formed state for any argument; Match and SplitAbs never panic; generic ranked-acquisition ⇒ deadlock-free theorem. The model returns those outcomes exactly where the Go code would panic or self-deadlock, and the correspondence treats an implementation panic/hang as a violation.",
-         "Parts (b)(c) (self-deadlock obligations per function, deadlock under interleaving) need the lock-skeleton translator, not built yet; other file-system types are covered only by the correspondence watchdog.",
+         "Parts (b)(c): nested lock acquisitions of every function are regenerated on every run and the kernel decides that they are exactly the listed ones (with the reason the two locks differ) and that no function re-acquires a lock it holds; deadlock under interleaving is searched (every call kind but Rename started while the lock of a random node is held), not proved; Rename's lock order and OrefaFS Link/Rename are recorded findings.",
          "Lean 4 proof (no-panic by case analysis under the walk invariant) + differential correspondence with recover/watchdog", "§3 C07"),
  "C10": ("Lean 4 theorems: for EVERY byte string and every absolute virtual cwd, ToBasePath yields the base directory or a path lexically below it without '.'/'..' elements (confinement), FromBasePath∘ToBasePath is Clean∘Abs, Getwd is total; shape tables of every BasePathFS method regenerated on every run: each path parameter goes through ToBasePath, errors come back translated.",
          "Chroot equivalence is carried by the lockstep run against a standalone file system with snapshots of everything outside the base directory; symlinks in the base pointing outside are assumed absent.",
          "Lean 4 proof (over the component semantics of Clean) + regenerated tables + lockstep differential", "§3 C10"),
  "C11": ("Lean 4 theorems over views of the MemFS model: a call through one view never changes user, umask, root or cwd of another view; handle operations only touch the view they were opened through; view setters leave the shared tree untouched; the tree is shared.",
-         "sub_sim (prefix simulation) not proved: carried by the correspondence with interleaved parent/view histories.",
+         "sub_sim (prefix simulation) is not a theorem: it is decided on the implementation by a twin run (every call through a view replayed on a second instance through the parent with the view's directory prefixed, outcomes and whole trees compared after every call) and a setter-isolation oracle (User/UMask/Getwd of all other views around every per-view setter), on every generated history.",
          "Lean 4 proof (case analysis over step) + differential correspondence with views", "§3 C11"),
  "C02": ("Lean 4 theorems over the handle model (fileStep): EOF beyond the end, zero-filled gaps, O_APPEND at the current end, access-mode enforcement, closed handles have no effect, a handle survives removal of its name, handles share the inode, directory batches deliver each entry once then EOF — for all contents, offsets and sizes.",
          "Per-operation theorems, not yet a refinement of whole histories; the os.File side is an oracle run (tmpfs) with recorded divergence classes (known_findings.jsonl).",
          "Lean 4 proof (case analysis / induction on batches) + differential correspondence with impl and os.File", "§3 C02"),
  "C03": ("Lean 4 theorems: checkPermission equals Linux DAC class selection for all modes/owners/users (not by enumeration of trees), creation formula perm &^ umask with caller's uid/gid, owner-only chmod, administrator never refused, chown restricted.",
-         "Kernel-side oracle under setfsuid not wired in yet; sticky/setgid semantics not covered.",
+         "The kernel comparison (setfsuid/setfsgid in a chroot-ed child) is an oracle run with recorded divergence classes; sticky/setgid semantics not covered.",
          "Lean 4 proof (bit-level case analysis) + differential correspondence with non-admin users", "§3 C03"),
  "C09": ("Shape tables of every RoFS / RoFile method are REGENERATED from the Go source on every run (factx) and the kernel re-decides that each is a permission-class refusal, a forward to a tree-preserving base method with identical arguments, the O_RDONLY-guarded OpenFile or the re-wrapped Sub; a generic Lean theorem lifts this to all histories of any length.",
          "The translator is trusted (syntactic, fails closed); behaviour is cross-checked by base-graph snapshots (incl. mtimes) around every call through RoFS, its files and its Sub results.",
@@ -48,7 +48,7 @@ CLAIMS = {
          "Composite behaviour under faults is enumerated (every single-fault plan per history), not proved; three swallowed-failure cases are recorded findings.",
          "Lean 4 proof over regenerated tables + exhaustive single-fault enumeration per history against a twin base", "§3 C12"),
  "C13": ("Lean 4 theorems about a byte-for-byte transliteration of the generic path code (Clean with its lazybuf, Join, Split, Dir, Base, IsAbs, Abs, Match no-panic, PathIterator laws) for ALL byte strings; Linux functions proved equal to a component-based reference that is itself compared with the toolchain's path/filepath on every run; both OS types run against the implementation built with avfs_setostype.",
-         "Windows: executable model + correspondence only (no Windows oracle in the run, theorems limited); Match/Rel equalities not yet proved (evidence.not_yet_proved).",
+         "Windows: executable model + correspondence with the implementation AND with the toolchain's own Windows path/filepath, retargeted mechanically from GOROOT on every run (winx); Windows theorems are limited to length/inverse laws; Match/Rel equalities not yet proved (evidence.not_yet_proved).",
          "Lean 4 proof (structural / well-founded induction over byte strings) + differential correspondence", "§3 C13"),
  "C15": ("Lean 4 theorems over the transliterated MemIdm model for all histories (invariant: name/id maps inverse; refinement to a two-map spec; ids never reused; admin predicate; typed errors; failed call leaves state unchanged).",
          "Concurrent histories are covered by the lock-skeleton obligations (C06/C08), not by these theorems.",
